@@ -1,6 +1,7 @@
 #!/usr/bin/python3
-# Sensitivity self-test (DESIGN.md section 4 "Sensitivity is proven too"): textual mutations of /repo, one at a time,
-# each must be caught by the quick check of the property it breaks. /repo is always restored (git checkout).
+# Sensitivity self-test (DESIGN.md section 4 "Sensitivity is proven too"): textual mutations, one at a time, of a scratch
+# worktree of /repo's HEAD (/tmp/vw-m; /repo itself is not touched); each must be caught by the quick check of the property
+# it breaks. Build output goes to /tmp/vb-m, evidence/replays to /tmp/vo-m.
 # usage: tools/mutants.py [name-substring ...]      results -> /verif/mutants_result.json
 import json
 import os
@@ -8,7 +9,7 @@ import subprocess
 import sys
 import time
 
-REPO = "/repo"
+REPO = "/tmp/vw-m"
 VERIF = os.path.dirname(os.path.dirname(os.path.abspath(__file__)))
 
 # (name, file, old, new, [checks expected to catch it])
@@ -91,8 +92,11 @@ def sh(cmd, **kw):
 
 def main():
     sel = sys.argv[1:]
-    if sh("git -C %s status --porcelain --untracked-files=no" % REPO).stdout.strip():
-        print("/repo has uncommitted changes - refusing"); return 2
+    if not os.path.isdir(REPO):
+        sh("git -C /repo worktree add --detach %s HEAD" % REPO)
+    sh("git -C %s checkout -q --detach $(git -C /repo rev-parse HEAD) && git -C %s checkout -q -- ." % (REPO, REPO))
+    env = dict(os.environ, VERIF_REPO=REPO, VERIF_BUILD="/tmp/vb-m", VERIF_OUT_DIR="/tmp/vo-m", CCACHE_DIR="/tmp/vb-m/ccache",
+               VERIF_N=os.environ.get("MUT_N", ""))
     res = {}
     path = os.path.join(VERIF, "mutants_result.json")
     if os.path.exists(path):
@@ -113,7 +117,7 @@ def main():
             caught = {}
             for c in checks:
                 t0 = time.time()
-                r = sh("checks/run %s quick" % c, cwd=VERIF, env=dict(os.environ, VERIF_N=os.environ.get("MUT_N", "")))
+                r = sh("checks/run %s quick" % c, cwd=VERIF, env=env)
                 v = [l for l in r.stdout.split("\n") if l.startswith("VIOLATION")]
                 herr = "HARNESS-ERROR" in r.stdout
                 caught[c] = {"rc": r.returncode, "violations": len(v), "harness_error": herr, "wall": round(time.time() - t0)}
